@@ -70,7 +70,10 @@ def oracles(case: dict, r: dict, B: dict) -> list[dict]:
         return V
     if r.get("parse") == "rejected":
         # rejected by the grammar / transformer: cost must be proportional to the text
-        lim = B["parse_c0"] + B["parse_c1_rejected"] * max(1, r["len"])
+        # macro expansion may legitimately make 100 passes over a text that grows to 100x its size
+        # (about 5 steps per character and pass): texts with macro definitions get the wider constant
+        c1 = B["parse_c1_rejected_macro"] if "macro" in case.get("text", "") else B["parse_c1_rejected"]
+        lim = B["parse_c0"] + c1 * max(1, r["len"])
         if r.get("parse_exc", "").startswith("Unexpected") and r["steps_parse"] > lim:
             V.append(_v("bounded", "parse-rejected", f"rejecting a {r['len']}-char text took {r['steps_parse']} steps > {lim}"))
         return V
